@@ -75,4 +75,57 @@ Proof.
   - destruct T as (T1 & (T2 & T3 & T4) & T5 & T6). repeat split; auto; lia.
 Qed.
 
+Lemma pres_IMn s ac s' : Inv s -> step s ac = Some s' -> bad_uaf s' = false /\ bad_under s' = false /\ bad_null s' = false.
+Proof.
+  intros Hi H. destruct (IMn _ _ Hi) as (M1 & M2 & M3). pose proof (head_facts _ Bpos _ Hi) as HF. cbn in HF.
+  destruct (tail_facts _ Bpos _ Hi) as (TA & _).
+  step_cases H; simp; auto.
+  all: try (a_facts Hi a).
+  all: rewrite ?M1, ?M2, ?M3, ?TA; cbn [orb negb]; auto.
+  all: try (rewrite (lb_alive _ s a Hi) by (unfold holds, lockpc; rewrite Epc; destruct (lockedB B (A s a)); auto); cbn [negb]; auto).
+  - brk. congruence.
+  - destruct Ha as (_ & _ & _ & Hc & Pp & Pe & _). destruct (claim_facts _ Bpos _ _ _ Hi Hc) as (K1 & K2 & K3 & K4 & K5 & K6 & K7 & K8 & K9).
+    destruct Hc as (C1 & C2 & C3 & C4 & C5). repeat split; auto. apply Nat.ltb_ge. rewrite Pp, Pe.
+    apply (release_le B); auto; try lia. intros j Hj. apply C5; lia.
+  - destruct Ha as (_ & _ & _ & Hc & Pp & Pe & _). destruct (claim_facts _ Bpos _ _ _ Hi Hc) as (K1 & K2 & K3 & K4 & K5 & K6 & K7 & K8 & K9).
+    destruct Hc as (C1 & C2 & C3 & C4 & C5). repeat split; auto. apply Nat.ltb_ge. rewrite Pp, Pe.
+    apply (release_le B); auto; try lia. intros j Hj. apply C5; lia.
+  - exfalso. lia.
+Qed.
+
+(* the block that follows the head block: live, at the recorded address, nothing claimed in it *)
+Lemma next_block s : Inv s -> S (bno (heap s (hb s))) < nblk s ->
+  let n := badr s (S (bno (heap s (hb s)))) in
+  alive (heap s n) = true /\ bno (heap s n) = S (bno (heap s (hb s))) /\ bstart (heap s n) = S (bno (heap s (hb s))) * B.
+Proof.
+  intros Hi Hn. pose proof (head_facts _ Bpos _ Hi) as HF. cbn in HF. destruct HF as (F1 & F2 & F3 & F4 & F5 & _).
+  assert (Q : alive (heap s (badr s (S (bno (heap s (hb s)))))) = true /\ bno (heap s (badr s (S (bno (heap s (hb s)))))) = S (bno (heap s (hb s)))).
+  { apply (ILv _ _ Hi) with (i := S (bno (heap s (hb s))) * B); auto; [lia|]. apply (unrel_above _ Bpos); auto. lia. }
+  destruct Q as [Q1 Q2]. cbn. repeat split; auto. destruct (IBk _ _ Hi _ Q1) as (_ & _ & K3 & _). rewrite K3, Q2. reflexivity.
+Qed.
+
+Lemma pres_ICl s ac s' : Inv s -> step s ac = Some s' -> forall i, cl s' i <> None <-> i < HL s'.
+Proof.
+  intros Hi H i. pose proof (ICl _ _ Hi i) as C. pose proof (head_facts _ Bpos _ Hi) as HF. cbn in HF.
+  destruct (IHd _ _ Hi) as [H1 H2].
+  unfold HL in *.
+  step_cases H; simp; auto.
+  all: try (a_facts Hi a).
+  all: try solve [ut; fin].
+  - bools. ut; fin.
+  - bools. destruct Ha as (Hli & _ & _ & He & Hn & _). pose proof (nexti_bounds _ Bpos _ Hli He Hn Ec0) as NB.
+    rewrite <- H0, <- H3 in *. updr_all; [split; [lia|congruence] | rewrite C; lia].
+  - destruct Ha as (_ & _ & _ & (L1 & L2 & L3) & _). rewrite <- L2, <- L3. exact C.
+  - destruct Ha as (Hli & _ & _ & (L1 & L2 & L3) & P1 & P2 & P3 & Nx & Nb). rewrite <- L2 in *.
+    assert (n = badr s (S (bno (heap s (hb s))))) by congruence. subst n.
+    destruct (next_block s Hi Nb) as (N1 & N2 & N3). rewrite N3.
+    destruct HF as (F1 & F2 & F3 & _). updr_all; [split; [lia|congruence] | rewrite C; lia].
+  - brk. congruence.
+  - destruct Ha as (Hli & _ & _ & (L1 & L2 & L3) & P1 & P2 & P3 & P4). rewrite <- L2 in *.
+    destruct HF as (F1 & F2 & F3 & _).
+    replace (pend (A s a)) with (bno (heap s (hb s)) * B + (pend (A s a) - bno (heap s (hb s)) * B)) at 2 by lia.
+    rewrite mod_block by (auto; lia).
+    updr_all; [split; [lia|congruence] | rewrite C; lia].
+Qed.
+
 End S.
